@@ -481,6 +481,16 @@ class Inputs:
     def parse_value(cls, itype: str, value: str | None) -> tuple[float, ...] | None:
         """Parse the input value."""
 
+        try:
+            return cls._parse_value(itype, value)
+        except ValueError:
+            # More digits than `int` is willing to convert: the value is not usable, so treat it as invalid.
+            return None
+
+    @classmethod
+    def _parse_value(cls, itype: str, value: str | None) -> tuple[float, ...] | None:
+        """Parse the input value."""
+
         parsed = None  # type: tuple[float, ...] | None
         if value is None:
             return value
